@@ -71,7 +71,10 @@ def make_spec(rng, force=None):
         "chrom_pool": rng.randrange(len(CHROM_POOLS)),
         "ped_shuffle": rng.random() < 0.5,          # PED lines in another order than the VCF columns
         "ped_extra": rng.random() < 0.15,           # a PED line about individuals that are not in the VCF
-        "two_bams": rng.random() < 0.3,             # reads split over two BAM files (source_id 0 / 1)
+        # single: one BAM; split: every sample's reads over two files; per_sample: one file per sample;
+        # solo_plus_rest: a.bam = A only, b.bam = B only, rest.bam = everybody; file order shuffled
+        "bam_layout": rng.choice(["single", "single", "single", "split", "per_sample", "per_sample", "solo_plus_rest",
+                                  "solo_plus_rest"]),
         "shared_read_names": rng.random() < 0.3,    # the same read names in every family and chromosome
         "paired_fraction": rng.choice([0.0, 0.0, 0.4]),
         "prephased": rng.random() < 0.25,           # input VCF already carries | genotypes and PS
@@ -327,23 +330,60 @@ def build_scenario(spec, wd):
     if not reads:
         # whatshap rejects an input file without any alignment ("No reads could be retrieved"): never pass one
         reads = synth.simulate_reads(rng, sc, samples[0], sc.chroms[0], 6, len_range=(120, 380), name_prefix="fill_")
-    bams = ["reads.bam"]
     groups = sorted({(r["name"], r["sample"]) for r in reads})
-    if spec.get("two_bams") and len(groups) >= 2:
-        bams = ["reads.bam", "reads2.bam"]
-        part = [[], []]
-        for r in reads:
-            part[hash_name(r["name"], r["sample"]) % 2].append(r)
-        for k in (0, 1):
-            if not part[k]:            # mates stay together: move one whole name group over
-                g = (part[1 - k][0]["name"], part[1 - k][0]["sample"])
-                part[k] = [r for r in part[1 - k] if (r["name"], r["sample"]) == g]
-                part[1 - k] = [r for r in part[1 - k] if (r["name"], r["sample"]) != g]
-        assert part[0] and part[1]
-        for b, rs in zip(bams, part):
-            synth.write_bam(sc, rs, os.path.join(wd, b))
+    layout = spec.get("bam_layout") or ("split" if spec.get("two_bams") else "single")
+    with_reads = [s for s in samples if any(r["sample"] == s for r in reads)]
+    # files: list of (file name, samples named in its header); where: (read name, sample) -> file
+    if layout == "split" and len(groups) >= 2:
+        files = [("reads.bam", list(samples)), ("reads2.bam", list(samples))]
+        where = {g: files[hash_name(*g) % 2][0] for g in groups}
+        for k in (0, 1):               # no empty file: move one whole name group over (mates stay together)
+            if not any(f == files[k][0] for f in where.values()):
+                where[groups[0] if where[groups[0]] != files[k][0] else groups[1]] = files[k][0]
+                if not any(f == files[1 - k][0] for f in where.values()):
+                    where[groups[-1]] = files[1 - k][0]
+    elif layout == "per_sample" and len(with_reads) >= 2:
+        # one file per sample; a sample is absent from every other file
+        files = [(f"s{k}.bam", [s]) for k, s in enumerate(with_reads)]
+        files[-1][1].extend(s for s in samples if s not in with_reads)
+        where = {g: f"s{with_reads.index(g[1])}.bam" for g in groups}
+    elif layout == "solo_plus_rest" and len(with_reads) >= 2:
+        # a.bam = A only, b.bam = B only, rest.bam = everybody (including the other reads of A and B)
+        solos = rng.sample(with_reads, rng.randint(1, min(2, len(with_reads) - 1)))
+        files = [(f"solo{k}.bam", [s]) for k, s in enumerate(solos)] + [("rest.bam", list(samples))]
+        where = {}
+        for g in groups:
+            if g[1] in solos and hash_name(*g) % 2 == 0:
+                where[g] = f"solo{solos.index(g[1])}.bam"
+            else:
+                where[g] = "rest.bam"
+        for k, s0 in enumerate(solos):       # no empty solo file
+            if not any(f == f"solo{k}.bam" for f in where.values()):
+                where[next(g for g in groups if g[1] == s0)] = f"solo{k}.bam"
+        if not any(f == "rest.bam" for f in where.values()):
+            where[groups[-1]] = "rest.bam"
+            files[-1] = ("rest.bam", list(samples))
     else:
-        synth.write_bam(sc, reads, os.path.join(wd, "reads.bam"))
+        layout = "single"
+        files = [("reads.bam", list(samples))]
+        where = {g: "reads.bam" for g in groups}
+    if layout != "single":
+        rng.shuffle(files)                   # the order on the command line (= source ids) is not the creation order
+
+    class _View:                             # header with read groups of this file's samples only
+        pass
+    for fname, fsamples in files:
+        v = _View()
+        v.ref, v.chroms, v.samples = sc.ref, sc.chroms, [s for s in samples if s in fsamples]
+        rs = [r for r in reads if where[(r["name"], r["sample"])] == fname]
+        assert rs, (layout, fname)
+        assert all(r["sample"] in fsamples for r in rs)
+        synth.write_bam(v, rs, os.path.join(wd, fname))
+    bams = [f for f, _ in files]
+    index = {f: k for k, f in enumerate(bams)}
+    sc.bam_layout = layout
+    sc.bam_samples = [list(fs) for _, fs in files]
+    sc.read_file = {g: index[f] for g, f in where.items()}     # the generator's own knowledge: read -> file index
     sc.bams = bams
     lines = [f"FAM{k}\t{ch}\t{fa}\t{mo}\t0\t1\n" for k, (ch, fa, mo) in enumerate(trios)]
     if spec.get("ped_shuffle"):
@@ -540,7 +580,7 @@ def file_term(lines, ctor):
     return Raw("(Some " + term(xs) + ")")
 
 
-def case_term(opt, in_vcf, out_vcf, insts, files, intern, sc_chroms, inst_recs):
+def case_term(opt, in_vcf, out_vcf, insts, files, intern, sc_chroms, inst_recs, read_file=None):
     """in_vcf / out_vcf: results of parse_vcf; insts: trace records (processing order);
     files: dict kind -> parsed list file; inst_recs: per trace record, the entries that the real
     write_recombination_list produces for it alone (list of tuples) or None if not computed."""
@@ -570,7 +610,9 @@ def case_term(opt, in_vcf, out_vcf, insts, files, intern, sc_chroms, inst_recs):
     else:
         ir = Raw("(Some " + term([Raw("None") if es is None else Raw("(Some " + term([Raw(T("mkCE", *[term(x) for x in e])) for e in es]) + ")")
                                   for es in inst_recs]) + ")")
-    return T("mkCase", o, term(opt["distrust"]), term(ids_t), term([intern(s) for s in samples]), term(cs), ob, ir)
+    src = [(intern(n), (intern(sm), k)) for (n, sm), k in sorted((read_file or {}).items())]
+    return T("mkCase", o, term(opt["distrust"]), term(ids_t), term([intern(s) for s in samples]), term(cs), ob, ir,
+             term(src) if src else "[]")
 
 
 def _some(x):
